@@ -66,6 +66,13 @@ def _lasts(message_set):
     return out
 
 
+def _pos_of(fetch_result):
+    try:
+        return fetch_result._assignment.state_value(fetch_result._topic_partition)._position
+    except Exception:  # noqa: BLE001
+        return None
+
+
 class LoggedRecords(collections.OrderedDict):
     """Fetcher._records with an observation point on keys(): only the scans of next_record /
     fetched_records call it."""
@@ -128,14 +135,14 @@ def install_wrappers():
         msg = o_getone(self)
         if CL is not None:
             CL.ev("c_hand_one", p=self._topic_partition.partition, task=_task(),
-                  res=None if msg is None else msg.offset)
+                  res=None if msg is None else msg.offset, pos=_pos_of(self))
         return msg
 
     def getall(self, max_records=None):
         lst = o_getall(self, max_records)
         if CL is not None:
             CL.ev("c_hand_many", p=self._topic_partition.partition, task=_task(), mx=max_records,
-                  res=[m.offset for m in lst])
+                  res=[m.offset for m in lst], pos=_pos_of(self))
         return lst
 
     def _set_error(self, tp, error):
